@@ -9,28 +9,32 @@ Local Open Scope nat_scope.
 Definition cell_ok (c : cell) : Prop :=
   match cs c with
   | Alloc => nct c = 0 /\ ndt c = 0 /\ nfr c = 0
-  | Constr => nct c = 1 /\ ndt c = 0 /\ nfr c = 0
-  | Destr => nct c = 1 /\ ndt c = 1 /\ nfr c = 0
-  | Freed => nct c = 1 /\ ndt c = 1 /\ nfr c = 1
+  | Constr => nct c = 1 /\ ndt c = 0 /\ nfr c = 0 /\ israwc c = false
+  | Destr => nct c = 1 /\ ndt c = 1 /\ nfr c = 0 /\ israwc c = false
+  | Freed => nfr c = 1 /\ (if israwc c then nct c = 0 /\ ndt c = 0    (* storage whose construction threw *)
+                          else nct c = 1 /\ ndt c = 1)
   end.
 Definition ledger_ok (g : glob) : Prop := forall k c, getc g k = Some c -> cell_ok c.
 
-Lemma ledger_modc_body g k b : ledger_ok g -> ledger_ok (modc g k (set_body b)).
+Lemma ledger_modc_body g k b : ledger_ok g -> okn g k = true \/ okz g k = true -> b <> BRaw -> ledger_ok (modc g k (set_body b)).
 Proof.
-  intros H j c Hc. rewrite getc_modc in Hc. destruct (Nat.eqb_spec j k) as [->|]; [|apply (H j c Hc)].
-  destruct (getc g k) as [c0|] eqn:E; [|discriminate]. cbn in Hc. inversion Hc; subst c. apply (H k c0 E).
+  intros H Hok Hb j c Hc. rewrite getc_modc in Hc. destruct (Nat.eqb_spec j k) as [->|]; [|apply (H j c Hc)].
+  destruct (getc g k) as [c0|] eqn:E; [|discriminate]. cbn in Hc. inversion Hc; subst c. pose proof (H k c0 E) as H0.
+  unfold okn, okz in Hok. rewrite E in Hok. destruct c0 as [[] b0 ? ? ?]; try (destruct Hok; discriminate).
+  unfold cell_ok in *. cbn in *. destruct H0 as (A & B & C & _). repeat split; auto. destruct b; [reflexivity|reflexivity|congruence].
 Qed.
 Lemma ledger_alloc g b : ledger_ok g -> ledger_ok (fst (do_alloc g b)).
 Proof.
   intros H j c Hc. rewrite getc_alloc in Hc. destruct (Nat.eqb j (nheap g)); [inversion Hc; cbn; auto|apply (H j c Hc)].
 Qed.
-Lemma ledger_construct g k b : ledger_ok g -> fault g = false -> fault (fst (do_construct g k b)) = false -> ledger_ok (fst (do_construct g k b)).
+Lemma ledger_construct g k b : ledger_ok g -> fault g = false -> fault (fst (do_construct g k b)) = false -> b <> BRaw -> ledger_ok (fst (do_construct g k b)).
 Proof.
-  intros H Hf Hf'. destruct (construct_fields g k b) as (_ & _ & _ & _ & _ & _ & _ & _ & _ & _ & _ & F12).
+  intros H Hf Hf' Hb. destruct (construct_fields g k b) as (_ & _ & _ & _ & _ & _ & _ & _ & _ & _ & _ & F12).
   rewrite F12, Hf in Hf'. cbn in Hf'. apply negb_false_iff in Hf'.
   intros j c Hc. rewrite getc_construct in Hc. destruct (Nat.eqb_spec j k) as [->|]; [|apply (H j c Hc)].
   destruct (getc g k) as [c0|] eqn:E; [|discriminate]. cbn in Hc. rewrite Hf' in Hc. inversion Hc; subst c.
-  pose proof (H k c0 E) as H0. unfold cs_is in Hf'. rewrite E in Hf'. unfold cell_ok in *. destruct (cs c0); try discriminate. cbn. lia.
+  pose proof (H k c0 E) as H0. unfold cs_is in Hf'. rewrite E in Hf'. unfold cell_ok in *. destruct (cs c0); try discriminate. cbn.
+  destruct H0 as (A & B & C). repeat split; try lia. destruct b; [reflexivity|reflexivity|congruence].
 Qed.
 Lemma ledger_destroy g k : ledger_ok g -> fault g = false -> fault (fst (do_destroy g k)) = false -> ledger_ok (fst (do_destroy g k)).
 Proof.
@@ -38,7 +42,8 @@ Proof.
   rewrite F12, Hf in Hf'. cbn in Hf'. apply negb_false_iff in Hf'.
   intros j c Hc. rewrite getc_destroy in Hc. destruct (Nat.eqb_spec j k) as [->|]; [|apply (H j c Hc)].
   destruct (getc g k) as [c0|] eqn:E; [|discriminate]. cbn in Hc. rewrite Hf' in Hc. inversion Hc; subst c.
-  pose proof (H k c0 E) as H0. unfold cs_is in Hf'. rewrite E in Hf'. unfold cell_ok in *. destruct (cs c0); try discriminate. cbn. lia.
+  pose proof (H k c0 E) as H0. unfold cs_is in Hf'. rewrite E in Hf'. unfold cell_ok in *. destruct c0 as [[] b0 ? ? ?]; try discriminate. cbn in *.
+  destruct H0 as (A & B & C & D). repeat split; auto; lia.
 Qed.
 Lemma ledger_dealloc g k : ledger_ok g -> fault g = false -> fault (fst (do_dealloc g k)) = false -> ledger_ok (fst (do_dealloc g k)).
 Proof.
@@ -46,7 +51,17 @@ Proof.
   rewrite F12, Hf in Hf'. cbn in Hf'. apply negb_false_iff in Hf'.
   intros j c Hc. rewrite getc_dealloc in Hc. destruct (Nat.eqb_spec j k) as [->|]; [|apply (H j c Hc)].
   destruct (getc g k) as [c0|] eqn:E; [|discriminate]. cbn in Hc. rewrite Hf' in Hc. inversion Hc; subst c.
-  pose proof (H k c0 E) as H0. unfold cs_is in Hf'. rewrite E in Hf'. unfold cell_ok in *. destruct (cs c0); try discriminate. cbn. lia.
+  pose proof (H k c0 E) as H0. unfold cs_is in Hf'. rewrite E in Hf'. unfold cell_ok in *. destruct c0 as [[] b0 ? ? ?]; try discriminate. cbn in *.
+  destruct H0 as (A & B & C & D). unfold israwc in *. cbn in *. rewrite D. split; [lia|split; lia].
+Qed.
+Lemma ledger_dealloc_raw g k : ledger_ok g -> fault g = false -> fault (fst (do_dealloc_raw g k)) = false -> ledger_ok (fst (do_dealloc_raw g k)).
+Proof.
+  intros H Hf Hf'. destruct (dealloc_raw_fields g k) as (_ & _ & _ & _ & _ & _ & _ & _ & _ & _ & _ & F12).
+  rewrite F12, Hf in Hf'. cbn in Hf'. apply negb_false_iff in Hf'.
+  intros j c Hc. rewrite getc_dealloc_raw in Hc. destruct (Nat.eqb_spec j k) as [->|]; [|apply (H j c Hc)].
+  destruct (getc g k) as [c0|] eqn:E; [|discriminate]. cbn in Hc. unfold rawf in Hc. rewrite Hf' in Hc.
+  pose proof (H k c0 E) as H0. unfold rawok, cs_is in Hf'. rewrite E in Hf'. apply andb_true_iff in Hf' as [A B]. rewrite B in Hc.
+  inversion Hc; subst c. unfold cell_ok in *. destruct c0 as [[] b0 ? ? ?]; try discriminate. cbn in *. unfold israwc in *. cbn in *. rewrite B. lia.
 Qed.
 Lemma ledger_heap g g' : heap g' = heap g -> ledger_ok g -> ledger_ok g'.
 Proof. intros Hh H j c Hc. apply (H j c). unfold getc in *. rewrite <- Hh. exact Hc. Qed.
@@ -58,23 +73,25 @@ Proof.
   all: try exact H.
   all: try (apply (ledger_heap g); [reflexivity|exact H]).
   all: try (apply ledger_alloc; exact H).
-  all: try (apply ledger_construct; assumption).
+  all: try (apply ledger_construct; try assumption; discriminate).
   all: try (apply ledger_destroy; assumption).
   all: try (apply ledger_dealloc; assumption).
-  all: try (apply ledger_modc_body; exact H).
-  all: try (eapply ledger_heap; [|apply ledger_modc_body; exact H]; reflexivity).
+  all: try (apply ledger_dealloc_raw; assumption).
+  all: try (apply ledger_modc_body; [exact H|first [left; assumption|right; assumption]|discriminate]).
+  all: try (eapply ledger_heap; [|apply ledger_modc_body; [exact H|first [left; assumption|right; assumption]|discriminate]]; reflexivity).
   all: try (eapply ledger_heap; [|apply ledger_alloc; exact H]; reflexivity).
+  all: try (exfalso; cbn in Hf'; discriminate).
 Qed.
 
 Lemma R_ledger progs s : R false progs s -> ledger_ok (gl s).
 Proof.
   intros H.
-  assert (Inv4 (gl s) (thr s) /\ ledger_ok (gl s)) as [_ L]; [|exact L].
-  eapply (reachable_inv glob loc tstep (fun g ls => Inv4 g ls /\ ledger_ok g)); [| |exact H].
-  - intros g ls t c l g' l' es HH Hl Hs. destruct HH as [I4 L0]. pose proof (Inv4_step g ls t c l g' l' es I4 Hl Hs) as I4'.
-    split; [exact I4'|]. destruct I4 as (_ & _ & Hf). destruct I4' as (_ & _ & Hf'). apply (ledger_step g t c l g' l' es L0 Hf Hf' Hs).
+  assert (Inv4x (gl s) (thr s) /\ ledger_ok (gl s)) as [_ L]; [|exact L].
+  eapply (reachable_inv glob loc tstep (fun g ls => Inv4x g ls /\ ledger_ok g)); [| |exact H].
+  - intros g ls t c l g' l' es HH Hl Hs. destruct HH as [I4 L0]. pose proof (Inv4x_step g ls t c l g' l' es I4 Hl Hs) as I4'.
+    split; [exact I4'|]. destruct I4 as ((_ & _ & Hf) & _). destruct I4' as ((_ & _ & Hf') & _). apply (ledger_step g t c l g' l' es L0 Hf Hf' Hs).
   - split.
-    + split; [split; [apply InvA_init|split; [apply InvB_init|apply InvC_init]]|split; reflexivity].
+    + split; [split; [split; [apply InvA_init|split; [apply InvB_init|apply InvC_init]]|split; reflexivity]|apply RcuRawProofs.InvR_init].
     + intros k c Hc. unfold getc in Hc. cbn in Hc. destruct k; discriminate.
 Qed.
 
@@ -82,11 +99,12 @@ Qed.
    that order; no allocator call was ever illegal (nothing never-constructed is destroyed, nothing is
    destroyed or freed twice) *)
 Theorem ledger_exact progs s k c : R false progs s -> getc (gl s) k = Some c ->
-  fault (gl s) = false /\ nct c <= 1 /\ ndt c <= nct c /\ nfr c <= ndt c /\
-  (cs c = Freed -> nct c = 1 /\ ndt c = 1 /\ nfr c = 1).
+  fault (gl s) = false /\ nct c <= 1 /\ ndt c <= nct c /\ nfr c <= 1 /\ (nfr c = 1 -> ndt c = nct c) /\
+  (cs c = Freed -> nfr c = 1 /\ if israwc c then nct c = 0 /\ ndt c = 0 else nct c = 1 /\ ndt c = 1).
 Proof.
   intros HR Hc. split; [apply (no_fault _ _ HR)|]. pose proof (R_ledger _ _ HR k c Hc) as L. unfold cell_ok in L.
-  destruct (cs c) eqn:Ecs; (split; [lia|split; [lia|split; [lia|]]]); intros E; try discriminate; lia.
+  destruct (cs c) eqn:Ecs; try (split; [lia|split; [lia|split; [lia|split; [lia|]]]]; intros E; discriminate).
+  destruct L as [L1 L2]. destruct (israwc c); (split; [lia|split; [lia|split; [lia|split; [lia|]]]]); intros _; split; auto.
 Qed.
 
 (* C13: nothing erased => a release destroys / deallocates only log records (here: a node is destroyed
